@@ -1001,4 +1001,194 @@ theorem toEntry_shape (env : Env) (fuel : Nat) (root : Mod) (scope : List Stmt) 
   | zero => intro herr; exact absurd herr (errorEntry_errors _ _ _)
   | succ fuel => rw [toEntry_succ]; exact toEntryBody_shape _ _ _ _ _ _ _ _
 
+/-! ### local predicates and their closure properties -/
+
+instance : LawfulBEq Kind where
+  eq_of_beq {a b} h := by cases a <;> cases b <;> first | rfl | exact absurd h (by decide)
+  rfl {a} := by cases a <;> decide
+
+/-- What a parent's local condition may look at in a child. -/
+def hdr (e : Entry) : String × Kind := (e.d.name, e.d.kind)
+
+/-- No `Dir`, input or output child is a deviate entry (those never enter a schema tree). -/
+def ndHere (e : Entry) : Bool :=
+  e.dir.all (·.d.kind != .deviate) && e.inp.all (·.d.kind != .deviate) && e.out.all (·.d.kind != .deviate)
+
+/-- The node data changes a step of `toEntry` makes without touching what the tree predicates read. -/
+def NeutralD (d d' : EData) : Prop :=
+  d'.name = d.name ∧ d'.kind = d.kind ∧ d'.hasDir = d.hasDir ∧ d'.node = d.node ∧ d'.listAttr = d.listAttr ∧
+    d'.type = d.type
+
+/-- Changes to a deviate entry's list attributes. -/
+def LaOnlyD (d d' : EData) : Prop :=
+  d'.name = d.name ∧ d'.kind = d.kind ∧ d'.hasDir = d.hasDir ∧ d'.node = d.node ∧ d'.type = d.type
+
+/-- Closure properties of a local predicate `q` under the operations `toEntry`, `merge` and the
+augment stage perform. -/
+structure LocalOK (env : Env) (q : Entry → Bool) : Prop where
+  hdr : ∀ d c i o c' i' o', c.map hdr = c'.map hdr → i.map hdr = i'.map hdr → o.map hdr = o'.map hdr →
+    q (.mk d c i o) = q (.mk d c' i' o')
+  leaf : ∀ root scope n syn, (leafEntry env root scope n syn).d.errors = [] → q (leafEntry env root scope n syn) = true
+  leafList : ∀ (d : EData) la xs dl, d.kind = .leaf → d.hasDir = false → q (.mk d [] [] []) = true →
+    q (.mk { d with listAttr := some la, errors := d.errors ++ xs, default := dl } [] [] []) = true
+  base : ∀ d : EData, d.hasDir = true → d.kind ≠ .leaf → (d.listAttr.isSome = true → d.kind = .directory) →
+    d.type = none → q (.mk d [] [] []) = true
+  neutral : ∀ d d' c i o, NeutralD d d' → q (.mk d c i o) = true → q (.mk d' c i o) = true
+  rename : ∀ (d : EData) c i o nm, q (.mk d c i o) = true → q (.mk { d with name := nm } c i o) = true
+  typeSet : ∀ (d : EData) c i o ty, d.kind ≠ .leaf → q (.mk d c i o) = true → q (.mk { d with type := ty } c i o) = true
+  laSet : ∀ d d' c i o, d.kind = .deviate → LaOnlyD d d' → q (.mk d c i o) = true → q (.mk d' c i o) = true
+  append : ∀ d c i o (v : Entry), q (.mk d c i o) = true → (∀ x ∈ c, x.name ≠ v.name) → v.d.kind ≠ .deviate →
+    q (.mk d (c ++ [v]) i o) = true
+  setInp : ∀ d c o (v : Entry), q (.mk d c [] o) = true → v.d.kind = .input → q (.mk d c [v] o) = true
+  setOut : ∀ d c i (v : Entry), q (.mk d c i []) = true → v.d.kind = .output → q (.mk d c i [v]) = true
+  nd : ∀ e, q e = true → ndHere e = true
+
+/-- "If the tree carries no error, `q` holds at every node." -/
+def Cond (q : Entry → Bool) (e : Entry) : Prop := NoErrors e → everyNode q e = true
+
+theorem noErrors_mk (d : EData) (c i o : List Entry) : NoErrors (.mk d c i o) ↔
+    d.errors = [] ∧ (∀ x ∈ c, NoErrors x) ∧ (∀ x ∈ i, NoErrors x) ∧ (∀ x ∈ o, NoErrors x) := by
+  unfold NoErrors; rw [everyNode_mk]; simp [noErrorsHere, Entry.d]
+
+theorem not_noErrors_addErr (e : Entry) (x : Err) : ¬ NoErrors (e.addErr x) := by
+  cases e with | mk d c i o =>
+  intro h
+  simp only [Entry.addErr, Entry.withD] at h
+  rw [noErrors_mk] at h
+  simp at h
+
+theorem child?_none (e : Entry) (k : String) (h : e.child? k = none) : ∀ x ∈ e.dir, x.name ≠ k := by
+  intro x hx hk
+  simp only [Entry.child?, List.find?_eq_none] at h
+  exact h x hx (by simp [hk])
+
+section Closure
+variable {env : Env} {q : Entry → Bool} (hq : LocalOK env q)
+include hq
+
+theorem cond_withD (e : Entry) (f : EData → EData) (hn : ∀ d, NeutralD d (f d))
+    (he : ∀ d, ∃ xs, (f d).errors = d.errors ++ xs) (h : Cond q e) : Cond q (e.withD f) := by
+  cases e with | mk d c i o =>
+  intro hne
+  simp only [Entry.withD] at hne ⊢
+  rw [noErrors_mk] at hne
+  obtain ⟨xs, hxs⟩ := he d
+  have hd : d.errors = [] := by
+    have := hne.1; rw [hxs] at this; exact (List.append_eq_nil_iff.mp this).1
+  have := h ((noErrors_mk _ _ _ _).2 ⟨hd, hne.2⟩)
+  rw [everyNode_mk] at this ⊢
+  exact ⟨hq.neutral _ _ _ _ _ (hn d) this.1, this.2⟩
+
+theorem cond_addErrs (e : Entry) (xs : List Err) (h : Cond q e) : Cond q (e.addErrs xs) :=
+  cond_withD hq e _ (fun d => ⟨rfl, rfl, rfl, rfl, rfl, rfl⟩) (fun d => ⟨xs, rfl⟩) h
+
+theorem cond_addErr (e : Entry) (x : Err) (h : Cond q e) : Cond q (e.addErr x) :=
+  cond_withD hq e _ (fun d => ⟨rfl, rfl, rfl, rfl, rfl, rfl⟩) (fun d => ⟨[x], rfl⟩) h
+
+theorem cond_importErrors (e c : Entry) (h : Cond q e) : Cond q (e.importErrors c) := cond_addErrs hq _ _ h
+
+/-- Appending a child whose name is new. -/
+theorem cond_append (e v : Entry) (h : Cond q e) (hv : Cond q v) (hk : e.child? v.name = none)
+    (hkind : NoErrors v → v.d.kind ≠ .deviate) : Cond q (e.withDir (e.dir ++ [v])) := by
+  cases e with | mk d c i o =>
+  intro hne
+  simp only [Entry.withDir, Entry.dir] at hne ⊢
+  rw [noErrors_mk] at hne
+  have hnv : NoErrors v := hne.2.1 v (by simp)
+  have hne' : NoErrors (.mk d c i o) :=
+    (noErrors_mk _ _ _ _).2 ⟨hne.1, fun x hx => hne.2.1 x (by simp [hx]), hne.2.2⟩
+  have he := h hne'
+  rw [everyNode_mk] at he ⊢
+  refine ⟨hq.append _ _ _ _ _ he.1 (child?_none _ _ hk) (hkind hnv), ?_, he.2.2⟩
+  intro x hx
+  rcases List.mem_append.mp hx with hx | hx
+  · exact he.2.1 x hx
+  · simp only [List.mem_singleton] at hx; subst hx; exact hv hnv
+
+theorem cond_add (e : Entry) (k : String) (v : Entry) (h : Cond q e) (hv : Cond q v)
+    (hs : NoErrors v → v.name = k ∧ v.d.kind ≠ .deviate) : Cond q (e.add k v) := by
+  unfold Entry.add
+  split
+  · intro hne; exact absurd hne (not_noErrors_addErr _ _)
+  · rename_i hk
+    intro hne
+    have hnv : NoErrors v := by
+      cases e with | mk d c i o =>
+      simp only [Entry.withDir, Entry.dir] at hne
+      rw [noErrors_mk] at hne
+      exact hne.2.1 v (by simp)
+    exact cond_append hq e v h hv (by rw [(hs hnv).1]; exact hk) (fun h => (hs h).2) hne
+
+
+omit hq in
+theorem merge_root_errors (e : Entry) (ns : Option String) (oe : Entry) : ∃ xs, (e.merge ns oe).d.errors =
+    (e.d.errors ++ (oe.d.errors ++ Entry.allErrorsL oe.dir ++ Entry.allErrorsL oe.inp ++ Entry.allErrorsL oe.out)) ++ xs := by
+  unfold Entry.merge
+  refine foldl_inv (fun x : Entry => ∃ xs, x.d.errors =
+    (e.d.errors ++ (oe.d.errors ++ Entry.allErrorsL oe.dir ++ Entry.allErrorsL oe.inp ++ Entry.allErrorsL oe.out)) ++ xs)
+    _ _ _ ?_ ?_
+  · refine ⟨[], ?_⟩
+    cases e with | mk d c i o => simp [Entry.importErrors, Entry.addErrs, Entry.withD, Entry.d]
+  · rintro b a _ ⟨xs, hxs⟩
+    dsimp only
+    split
+    · refine ⟨xs ++ [Err.at_ oe.d.node "duplicate-node"], ?_⟩
+      cases b with | mk d c i o =>
+      simp only [Entry.addErr, Entry.withD, Entry.d] at hxs ⊢
+      rw [hxs, List.append_assoc]
+    · refine ⟨xs, ?_⟩
+      cases b with | mk d c i o => exact hxs
+
+omit hq in
+theorem noErrors_of_merge (e : Entry) (ns : Option String) (oe : Entry) (h : NoErrors (e.merge ns oe)) : NoErrors oe := by
+  obtain ⟨xs, hxs⟩ := merge_root_errors e ns oe
+  have h0 : (e.merge ns oe).d.errors = [] := by
+    generalize e.merge ns oe = r at h
+    cases r with | mk d c i o => exact ((noErrors_mk _ _ _ _).1 h).1
+  rw [h0] at hxs
+  have := hxs.symm
+  simp only [List.append_eq_nil_iff] at this
+  rw [noErrors_iff]
+  cases oe with | mk d c i o =>
+  simp only [Entry.d, Entry.dir, Entry.inp, Entry.out] at this
+  simp [Entry.allErrors, this]
+
+theorem cond_merge (e : Entry) (ns : Option String) (oe : Entry) (h : Cond q e) (ho : Cond q oe) :
+    Cond q (e.merge ns oe) := by
+  intro hne
+  have hoe := noErrors_of_merge e ns oe hne
+  have hqo := ho hoe
+  revert hne
+  show Cond q (e.merge ns oe)
+  cases oe with | mk d2 c2 i2 o2 =>
+  rw [everyNode_mk] at hqo
+  rw [noErrors_mk] at hoe
+  have hnd := hq.nd _ hqo.1
+  simp only [ndHere, Entry.dir, Bool.and_eq_true, List.all_eq_true] at hnd
+  have step : ∀ (stamp : Entry → Entry) (x : Err), (∀ v, Cond q v → Cond q (stamp v)) → (∀ v, (stamp v).name = v.name) →
+      (∀ v, (stamp v).d.kind = v.d.kind) → ∀ b v, v ∈ c2 → Cond q b →
+      Cond q (match b.child? (stamp v).name with
+        | some _ => b.addErr x
+        | none => b.withDir (b.dir ++ [stamp v])) := by
+    intro stamp x h1 h2 h3 b v hv hb
+    split
+    · intro hne; exact absurd hne (not_noErrors_addErr _ _)
+    · rename_i hk
+      exact cond_append hq b _ hb (h1 v (fun _ => hqo.2.1 v hv)) hk (fun _ => by rw [h3]; exact (bne_iff_ne).mp (hnd.1.1 v hv))
+  unfold Entry.merge
+  simp only [Entry.dir]
+  cases ns with
+  | none =>
+    refine foldl_inv (fun x : Entry => Cond q x) _ c2 _ (cond_importErrors hq _ _ h) ?_
+    intro b v hv hb
+    exact step id _ (fun v hv => hv) (fun v => rfl) (fun v => rfl) b v hv hb
+  | some n =>
+    refine foldl_inv (fun x : Entry => Cond q x) _ c2 _ (cond_importErrors hq _ _ h) ?_
+    intro b v hv hb
+    exact step (fun v => v.withD fun d => { d with ns := some n }) _
+      (fun v hv => cond_withD hq _ _ (fun d => ⟨rfl, rfl, rfl, rfl, rfl, rfl⟩) (fun d => ⟨[], by simp⟩) hv)
+      (fun v => by cases v; rfl) (fun v => by cases v; rfl) b v hv hb
+
+end Closure
+
 end Goyang.Lemmas.Tree
